@@ -1,7 +1,7 @@
 #!/bin/bash
 # revert_sweep.sh: every repair of the hunting round taken out again must be reported by its check with a concrete input.
 cd /verif
-declare -A CHECK=( [F-01b]=C01 [F-02g]=C09 [F-04d]=C04 [F-07f]=C07 [F-08e]=C08 [F-10a]=C10 [F-13c]=C13 [F-14d]=C14 [F-15e]=C15 [F-17d]=C17 [F-18a]=C18 [F-18b]=C18 [F-19c]=C19 [F-09k]=C09 [F-08f]=C08 [F-09l]=C09 [F-11i]=C11 [F-08g]=C08 [F-08h]=C08 [F-08i]=C08 [F-08j]=C08 [F-08k]=C08 )
+declare -A CHECK=( [F-01b]=C01 [F-02g]=C09 [F-04d]=C04 [F-07f]=C07 [F-08e]=C08 [F-10a]=C10 [F-13c]=C13 [F-14d]=C14 [F-15e]=C15 [F-17d]=C17 [F-18a]=C18 [F-18b]=C18 [F-19c]=C19 [F-09k]=C09 [F-08f]=C08 [F-09l]=C09 [F-11i]=C11 [F-08g]=C08 [F-08h]=C08 [F-08i]=C08 [F-08j]=C08 [F-08k]=C08 [F-07g]=C07 [F-14e]=C14 )
 for f in seeded/reverts/F-*.diff; do
   id=$(basename $f .diff)
   out=$(tools/seed_check.sh $f ${CHECK[$id]} 2>&1 | grep -E "→|^c[0-9]+\." | tail -2 | cut -c1-160 | tr '\n' ' ')
